@@ -227,7 +227,7 @@ def eval_case(case):
         g1 = float(em.error_probability(e, code, p, log_output=True))
         g2 = float(em.error_probability(e2, code, p, log_output=True))
         if not (math.isinf(l1) or math.isinf(l2)):
-            if abs((g2 - g1) - (l2 - l1)) > 1e-9 * max(1, abs(l2 - l1)):
+            if not abs((g2 - g1) - (l2 - l1)) <= 1e-9 * max(1, abs(l2 - l1)):
                 fail('likelihood_ratio', f'move {move} on qubit {i}: '
                      f'exp(dlogP)={math.exp(g2 - g1)!r}, true ratio={math.exp(l2 - l1)!r}')
                 break
@@ -278,7 +278,7 @@ def eval_case(case):
                         _, l_new = ref_prob(t, nxt, n)
                         _, l_old = ref_prob(t, prev, n)
                         true_q = 0.0 if math.isinf(l_new) else math.exp(min(0.0, l_new - l_old))
-                        if abs(seen_q[0] - true_q) > 1e-9:
+                        if not abs(seen_q[0] - true_q) <= 1e-9:
                             fail('metropolis_acceptance_is_likelihood_ratio',
                                  f'acceptance probability {seen_q[0]!r} used for a move whose '
                                  f'true likelihood ratio gives {true_q!r}')
